@@ -817,7 +817,8 @@ def ufun_apply(name, x):
 
 def _ax_exp(c, x, y):
     ln = c.ufun('ln')
-    return [y > 0, ln(y) == x]
+    ex = c.ufun('exp')
+    return [y > 0, ln(y) == x, ex(-x)*y == 1]
 
 
 def _recip_log_axiom(c, fname, iname, x, y):
@@ -837,7 +838,8 @@ def _ax_ln(c, x, y):
 
 def _ax_p10(c, x, y):
     lg = c.ufun('lg')
-    return [y > 0, lg(y) == x]
+    p10 = c.ufun('p10')
+    return [y > 0, lg(y) == x, p10(-x)*y == 1]
 
 
 def _ax_lg(c, x, y):
